@@ -1,5 +1,6 @@
 //! E1: deterministic simulation of real dust-dds participants (virtual time, faulty network).
 pub mod exec;
+pub mod hang;
 pub mod net;
 pub mod world;
 
